@@ -39,11 +39,11 @@ namespace IceProofs.Agent
 open IceModel.AgentCore
 
 @[simp] theorem core_mk (cfg tieBreaker controlling started closed connState localUfrag localPwd remoteUfrag remotePwd
-    locals remotes checklist nextPairID nextUid nextTid tag pending selected selStart nominatedPair lastNomination
+    locals remotes checklist nextPairID nextUid nextTid tag pending selected selStart nominatedPair lastNomination answeredNomination
     lastSeen checkingStart checkingTimeout forcePending nextTick caches rx connBytesSent connBytesRecv
     onConnectedFired generation nomIssued) :
     (Agent.mk cfg tieBreaker controlling started closed connState localUfrag localPwd remoteUfrag remotePwd
-    locals remotes checklist nextPairID nextUid nextTid tag pending selected selStart nominatedPair lastNomination
+    locals remotes checklist nextPairID nextUid nextTid tag pending selected selStart nominatedPair lastNomination answeredNomination
     lastSeen checkingStart checkingTimeout forcePending nextTick caches rx connBytesSent connBytesRecv
     onConnectedFired generation nomIssued).core = ⟨cfg, tieBreaker, tag, controlling, lastNomination, localUfrag, localPwd,
       remoteUfrag, remotePwd, started, closed⟩ := rfl
